@@ -184,18 +184,24 @@ def _val(v: Any) -> Any:
 
 # ====================================================================== realize
 
-def realize(world: World, classes: Any, renderers: Dict[str, Any], via_add: bool = True) -> Dict[str, Any]:
+def realize(world: World, classes: Any, renderers: Dict[str, Any], via_add: bool = True,
+            pre: Optional[Dict[str, Any]] = None) -> Dict[str, Any]:
     """Build real objects for every handle through the public constructors.
     Database membership is established with db.add() in model list order.
     `classes` is the pydbml.classes module (+ Database)."""
     C = classes
-    real: Dict[str, Any] = {}
+    real: Dict[str, Any] = dict(pre or {})
+    pre = pre or {}
     m = world.m
     for h in world.handles("enum"):
+        if h in pre:
+            continue
         d = m[h]
         items = [C.EnumItem(i["name"], note=i["note"] or None, comment=i["comment"]) for i in d["items"]]
         real[h] = C.Enum(d["name"], items, schema=d["schema"], comment=d["comment"])
     for h in world.handles("column"):
+        if h in pre:
+            continue
         d = m[h]
         ty = d["type"]
         if isinstance(ty, (list, tuple)):
@@ -221,8 +227,11 @@ def realize(world: World, classes: Any, renderers: Dict[str, Any], via_add: bool
                        note=d["note"] or None, comment=d["comment"])
 
     for h in world.handles("index"):
-        real[h] = mk_index(h)
+        if h not in pre:
+            real[h] = mk_index(h)
     for h in world.handles("table"):
+        if h in pre:
+            continue
         d = m[h]
         kw = dict(schema=d["schema"], alias=d["alias"], note=d["note"] or None, header_color=d["header_color"],
                   comment=d["comment"], abstract=d["abstract"], properties=dict(d["properties"]) or None)
@@ -237,6 +246,8 @@ def realize(world: World, classes: Any, renderers: Dict[str, Any], via_add: bool
                 t.add_index(real[i])
         real[h] = t
     for h in world.handles("ref"):
+        if h in pre:
+            continue
         d = m[h]
         c1 = [real[c] for c in d["col1"]]
         c2 = [real[c] for c in d["col2"]]
@@ -244,16 +255,24 @@ def realize(world: World, classes: Any, renderers: Dict[str, Any], via_add: bool
                               name=d["name"], comment=d["comment"], on_update=d["on_update"],
                               on_delete=d["on_delete"], inline=d["inline"])
     for h in world.handles("group"):
+        if h in pre:
+            continue
         d = m[h]
         real[h] = C.TableGroup(d["name"], [real[t] for t in d["items"]], comment=d["comment"],
                                note=None if d["note"] is None else C.Note(d["note"]), color=d["color"])
     for h in world.handles("sticky"):
+        if h in pre:
+            continue
         d = m[h]
         real[h] = C.StickyNote(d["name"], d["text"])
     for h in world.handles("project"):
+        if h in pre:
+            continue
         d = m[h]
         real[h] = C.Project(d["name"], items=dict(d["items"]) or None, note=d["note"] or None, comment=d["comment"])
     for h in world.handles("db"):
+        if h in pre:
+            continue
         d = m[h]
         db = C.Database(sql_renderer=renderers["sql"][d["sqlr"]], dbml_renderer=renderers["dbml"][d["dbmlr"]],
                         allow_properties=d["allow_properties"])
